@@ -9,6 +9,7 @@ use crate::gen::{self, Knobs};
 use crate::libtier::{run_in_sim, SimPlan, SimResult};
 use crate::report::{conclude, Evidence, Violation};
 use crate::rng::{hash_str, Rng};
+use program_structure::ast;
 use program_structure::cfg::{Cfg, IntoCfg};
 use program_structure::constants::Curve;
 use program_structure::ir::{AccessType, Expression, Statement, VariableName, VariableType};
@@ -350,6 +351,215 @@ fn path_walk(pre: &Cfg, ssa: &Cfg, rng: &mut Rng, walks: usize) -> Option<(Strin
     None
 }
 
+/// (c) source-scope audit. "It sees the same assignment as the original program" starts
+/// before SSA: the CFG is built from a renamed copy of the body in which every declaration
+/// carries a unique name. This walks the parsed body with its own scope stack, the CFG in
+/// block order (lifting keeps source order and maps each simple statement to one IR
+/// statement), and demands that the source declaration -> CFG name relation is a bijection.
+type DeclId = (String, usize);
+
+struct Scopes {
+    stack: Vec<BTreeMap<String, DeclId>>,
+    count: BTreeMap<String, usize>,
+}
+
+impl Scopes {
+    fn resolve(&self, n: &str) -> Option<DeclId> {
+        self.stack.iter().rev().find_map(|s| s.get(n).cloned())
+    }
+    fn declare(&mut self, n: &str) -> DeclId {
+        let c = self.count.entry(n.to_string()).or_default();
+        let id = (n.to_string(), *c);
+        *c += 1;
+        self.stack.last_mut().unwrap().insert(n.to_string(), id.clone());
+        id
+    }
+}
+
+#[derive(Default)]
+struct SrcStmt {
+    /// occurrences outside the declared name: (source name, what it resolves to)
+    uses: Vec<(String, Option<DeclId>)>,
+    declares: Option<DeclId>,
+}
+
+fn ast_uses_expr(e: &ast::Expression, sc: &Scopes, out: &mut Vec<(String, Option<DeclId>)>) {
+    use ast::Expression::*;
+    match e {
+        Variable { name, access, .. } => {
+            out.push((name.clone(), sc.resolve(name)));
+            for a in access {
+                if let ast::Access::ArrayAccess(i) = a {
+                    ast_uses_expr(i, sc, out);
+                }
+            }
+        }
+        InfixOp { lhe, rhe, .. } => {
+            ast_uses_expr(lhe, sc, out);
+            ast_uses_expr(rhe, sc, out);
+        }
+        PrefixOp { rhe, .. } | ParallelOp { rhe, .. } => ast_uses_expr(rhe, sc, out),
+        InlineSwitchOp { cond, if_true, if_false, .. } => {
+            ast_uses_expr(cond, sc, out);
+            ast_uses_expr(if_true, sc, out);
+            ast_uses_expr(if_false, sc, out);
+        }
+        Number(_, _) => {}
+        Call { args, .. } => args.iter().for_each(|a| ast_uses_expr(a, sc, out)),
+        ArrayInLine { values, .. } | Tuple { values, .. } => values.iter().for_each(|a| ast_uses_expr(a, sc, out)),
+        AnonymousComponent { params, signals, .. } => {
+            params.iter().for_each(|a| ast_uses_expr(a, sc, out));
+            signals.iter().for_each(|a| ast_uses_expr(a, sc, out));
+        }
+    }
+}
+
+fn ast_walk(s: &ast::Statement, sc: &mut Scopes, out: &mut Vec<SrcStmt>) {
+    use ast::Statement::*;
+    let mut st = SrcStmt::default();
+    match s {
+        Block { stmts, .. } => {
+            sc.stack.push(BTreeMap::new());
+            for x in stmts {
+                ast_walk(x, sc, out);
+            }
+            sc.stack.pop();
+            return;
+        }
+        InitializationBlock { initializations, .. } => {
+            for x in initializations {
+                ast_walk(x, sc, out);
+            }
+            return;
+        }
+        While { cond, stmt, .. } => {
+            ast_uses_expr(cond, sc, &mut st.uses);
+            out.push(st);
+            ast_walk(stmt, sc, out);
+            return;
+        }
+        IfThenElse { cond, if_case, else_case, .. } => {
+            ast_uses_expr(cond, sc, &mut st.uses);
+            out.push(st);
+            ast_walk(if_case, sc, out);
+            if let Some(e) = else_case {
+                ast_walk(e, sc, out);
+            }
+            return;
+        }
+        Declaration { name, dimensions, .. } => {
+            dimensions.iter().for_each(|d| ast_uses_expr(d, sc, &mut st.uses));
+            st.declares = Some(sc.declare(name));
+        }
+        Substitution { var, access, rhe, .. } => {
+            st.uses.push((var.clone(), sc.resolve(var)));
+            for a in access {
+                if let ast::Access::ArrayAccess(i) = a {
+                    ast_uses_expr(i, sc, &mut st.uses);
+                }
+            }
+            ast_uses_expr(rhe, sc, &mut st.uses);
+        }
+        MultiSubstitution { lhe, rhe, .. } | ConstraintEquality { lhe, rhe, .. } => {
+            ast_uses_expr(lhe, sc, &mut st.uses);
+            ast_uses_expr(rhe, sc, &mut st.uses);
+        }
+        LogCall { args, .. } => {
+            for a in args {
+                if let ast::LogArgument::LogExp(e) = a {
+                    ast_uses_expr(e, sc, &mut st.uses);
+                }
+            }
+        }
+        Return { value, .. } => ast_uses_expr(value, sc, &mut st.uses),
+        Assert { arg, .. } => ast_uses_expr(arg, sc, &mut st.uses),
+    }
+    out.push(st);
+}
+
+/// Some(Err(())) = the two statement sequences do not line up (nothing is judged).
+fn scope_audit(def: &ast::Definition, pre: &Cfg) -> Option<Result<(String, String), ()>> {
+    let (args, body) = match def {
+        ast::Definition::Template { args, body, .. } | ast::Definition::Function { args, body, .. } => (args, body),
+    };
+    let mut sc = Scopes { stack: vec![BTreeMap::new()], count: BTreeMap::new() };
+    for a in args {
+        sc.declare(a);
+    }
+    let mut src: Vec<SrcStmt> = Vec::new();
+    ast_walk(body, &mut sc, &mut src);
+    let ir: Vec<&Statement> = pre.iter().flat_map(|b| b.iter()).collect();
+    if ir.len() != src.len() {
+        return Some(Err(()));
+    }
+    let mut fwd: BTreeMap<DeclId, VKey> = BTreeMap::new();
+    let mut back: BTreeMap<VKey, DeclId> = BTreeMap::new();
+    for p in pre.parameters().iter() {
+        let k = vkey(p);
+        let id = (k.0.clone(), 0usize);
+        fwd.insert(id.clone(), k.clone());
+        back.insert(k, id);
+    }
+    let mut bind = |id: &DeclId, k: &VKey, what: &str| -> Option<(String, String)> {
+        if let Some(k0) = fwd.get(id) {
+            if k0 != k {
+                return Some((
+                    "source-variable-under-two-names".into(),
+                    format!("declaration #{} of `{}` is `{}{}` in one place and `{}{}` in `{what}`", id.1, id.0, k0.0, if k0.1.is_empty() { String::new() } else { format!("_{}", k0.1) }, k.0, if k.1.is_empty() { String::new() } else { format!("_{}", k.1) }),
+                ));
+            }
+        }
+        if let Some(id0) = back.get(k) {
+            if id0 != id {
+                return Some((
+                    "two-source-variables-under-one-name".into(),
+                    format!("declarations #{} and #{} of `{}` are both `{}{}` (seen in `{what}`)", id0.1, id.1, id.0, k.0, if k.1.is_empty() { String::new() } else { format!("_{}", k.1) }),
+                ));
+            }
+        }
+        fwd.insert(id.clone(), k.clone());
+        back.insert(k.clone(), id.clone());
+        None
+    };
+    for (a, s) in src.iter().zip(ir.iter()) {
+        let what = format!("{s:?}");
+        let mut names: Vec<VariableName> = reads_of_stmt(s).into_iter().map(|x| x.0).collect();
+        match s {
+            Statement::Substitution { var, .. } => names.push(var.clone()),
+            Statement::Declaration { names: declared, .. } => {
+                let Some(id) = &a.declares else { return Some(Err(())) };
+                let d: Vec<&VariableName> = declared.iter().collect();
+                if d.len() != 1 || d[0].name() != &id.0 {
+                    return Some(Err(()));
+                }
+                if let Some(v) = bind(id, &vkey(d[0]), &what) {
+                    return Some(Ok(v));
+                }
+            }
+            _ => {}
+        }
+        if a.declares.is_some() != matches!(s, Statement::Declaration { .. }) {
+            return Some(Err(()));
+        }
+        // within one statement a source name denotes one declaration
+        let src_names: BTreeSet<&String> = a.uses.iter().map(|u| &u.0).collect();
+        let ir_names: BTreeSet<&String> = names.iter().map(|n| n.name()).collect();
+        if src_names != ir_names {
+            return Some(Err(()));
+        }
+        for (n, id) in &a.uses {
+            let Some(id) = id else { continue };
+            let keys: BTreeSet<VKey> = names.iter().filter(|x| x.name() == n).map(vkey).collect();
+            for k in &keys {
+                if let Some(v) = bind(id, k, &what) {
+                    return Some(Ok(v));
+                }
+            }
+        }
+    }
+    None
+}
+
 #[derive(Clone)]
 struct EvalResult {
     lifted: bool,
@@ -358,10 +568,14 @@ struct EvalResult {
     fingerprint: u64,
     phis: usize,
     phi3: bool,
+    scope_judged: bool,
+    renamed: bool,
+    blocks: usize,
 }
 
 fn evaluate(src: &str, walk_seed: u64, walks: usize) -> EvalResult {
-    let mut r = EvalResult { lifted: false, ssa_ok: false, verdict: None, fingerprint: 0, phis: 0, phi3: false };
+    let mut r = EvalResult { lifted: false, ssa_ok: false, verdict: None, fingerprint: 0, phis: 0, phi3: false, scope_judged: false, renamed: false, blocks: 0 };
+    let d0 = parser::parse_definition(src);
     let Some(d1) = parser::parse_definition(src) else { return r };
     let Some(d2) = parser::parse_definition(src) else { return r };
     let mut reports = ReportCollection::new();
@@ -369,6 +583,7 @@ fn evaluate(src: &str, walk_seed: u64, walks: usize) -> EvalResult {
     let mut reports2 = ReportCollection::new();
     let Ok(pre2) = d2.into_cfg(&Curve::default(), &mut reports2) else { return r };
     r.lifted = true;
+    r.blocks = pre.len();
     let Ok(ssa) = pre2.into_ssa() else { return r };
     r.ssa_ok = true;
     r.fingerprint = hash_str(&format!("{ssa:?}"));
@@ -382,7 +597,10 @@ fn evaluate(src: &str, walk_seed: u64, walks: usize) -> EvalResult {
             }
         }
     }
-    r.verdict = audit(&ssa).or_else(|| path_walk(&pre, &ssa, &mut Rng::new(walk_seed), walks));
+    let scope = d0.as_ref().and_then(|d| scope_audit(d, &pre));
+    r.scope_judged = !matches!(scope, Some(Err(())));
+    r.renamed = pre.declarations().iter().any(|(n, _)| n.suffix().is_some());
+    r.verdict = audit(&ssa).or_else(|| path_walk(&pre, &ssa, &mut Rng::new(walk_seed), walks)).or(scope.and_then(|x| x.ok()));
     r
 }
 
@@ -406,8 +624,49 @@ pub fn gen_source(seed: u64, i: usize) -> String {
     k.hex = false;
     k.array_init_permille = 400;
     k.odd_names = r.chance(1, 2);
-    let d = gen::gen_single_def(&mut r, &k);
+    let mut d = gen::gen_single_def(&mut r, &k);
+    // sizes: some definitions are padded to an exact number of basic blocks around the
+    // machine word sizes (dominator and frontier sets are sets of block indices)
+    let mut r_size = base.sub("size");
+    if r_size.chance(1, 6) {
+        let target = *r_size.pick(&[31usize, 32, 33, 63, 64, 64, 65, 127, 128, 128, 129, 192, 256]);
+        if let Some(now) = block_count(&gen::render_def(&d)) {
+            if now + 2 <= target {
+                let mut need = target - now;
+                let mut pads: Vec<String> = vec!["var pdz = 0 ;".into()];
+                if need % 2 == 1 {
+                    pads.push("if ( pdz < 1 ) { pdz = pdz + 1 ; } else { pdz = pdz + 2 ; }".into());
+                    need -= 3;
+                }
+                for j in 0..need / 2 {
+                    pads.push(match r_size.usize(3) {
+                        0 => format!("if ( pdz < {j} ) {{ pdz = pdz + 1 ; }}"),
+                        1 => format!("if ( pdz != {j} ) {{ pdz += {j} ; }}"),
+                        _ => "if ( pdz == 0 ) { pdz ++ ; }".to_string(),
+                    });
+                }
+                let raw = gen::Stmt::Raw(pads.join(" ").split_whitespace().map(|t| t.to_string()).collect());
+                // functions end in their return statement: the padding goes in front
+                let at = r_size.usize(d.body.len().max(1));
+                d.body.insert(at.min(d.body.len().saturating_sub(1)), raw);
+            }
+        }
+    }
     gen::render_def(&d)
+}
+
+fn block_count(src: &str) -> Option<usize> {
+    // lifting may panic on what the generator wrote (C01's business): measure inside the simulator
+    let s = src.to_string();
+    let (out, _) = run_in_sim(&SimPlan::quiet([7u8; 16], 7), move || {
+        let d = parser::parse_definition(&s)?;
+        let mut reports = ReportCollection::new();
+        d.into_cfg(&Curve::default(), &mut reports).ok().map(|c| c.len())
+    });
+    match out {
+        SimResult::Ok(n) => n,
+        SimResult::Panic(_) => None,
+    }
 }
 
 struct DefRes {
@@ -418,13 +677,16 @@ struct DefRes {
     panics: usize,
     phis: usize,
     phi3: bool,
+    scope_judged: bool,
+    renamed: bool,
+    blocks: usize,
     sim_ns: i64,
     stalls_fired: usize,
 }
 
 fn one(seed: u64, i: usize, keys: usize, walks: usize) -> DefRes {
     let src = gen_source(seed, i);
-    let mut res = DefRes { evals: 0, usable: false, fingerprints: BTreeSet::new(), violation: None, panics: 0, phis: 0, phi3: false, sim_ns: 0, stalls_fired: 0 };
+    let mut res = DefRes { evals: 0, usable: false, fingerprints: BTreeSet::new(), violation: None, panics: 0, phis: 0, phi3: false, scope_judged: false, renamed: false, blocks: 0, sim_ns: 0, stalls_fired: 0 };
     let mut rk = Rng::new(seed).sub_n("C14-keys", i as u64);
     for k in 0..keys {
         let key = rk.bytes16();
@@ -454,6 +716,9 @@ fn one(seed: u64, i: usize, keys: usize, walks: usize) -> DefRes {
                 res.fingerprints.insert(e.fingerprint);
                 res.phis = res.phis.max(e.phis);
                 res.phi3 |= e.phi3;
+                res.scope_judged |= e.scope_judged;
+                res.blocks = e.blocks;
+                res.renamed |= e.renamed && e.scope_judged;
                 if let Some((sig, detail)) = e.verdict {
                     res.violation = Some((
                         sig,
@@ -564,6 +829,10 @@ pub fn run(env: &Env) -> i32 {
             ("definition with two or more SSA namings", results.iter().filter(|r| r.fingerprints.len() >= 2).count()),
             ("phi with three or more arguments", results.iter().filter(|r| r.phi3).count()),
             ("conversion on a stalling clock", results.iter().map(|r| r.stalls_fired).sum::<usize>()),
+            ("definition whose block count is a multiple of 64", results.iter().filter(|r| r.usable && r.blocks > 0 && r.blocks % 64 == 0).count()),
+            ("definition with 100 or more blocks", results.iter().filter(|r| r.usable && r.blocks >= 100).count()),
+            ("source-scope audit judged", results.iter().filter(|r| r.scope_judged).count()),
+            ("source-scope audit judged a definition with a renamed declaration", results.iter().filter(|r| r.renamed).count()),
         ],
     );
     cov.insert("components".into(), json!({"real": ["parser::parse_definition", "into_cfg (lifting, unique_vars)", "into_ssa (phi insertion, renaming, declarations, propagation)"], "simulated": ["getrandom (hash key per run)", "clock_gettime"], "not_run": ["main.rs", "writers", "analysis passes"], "stubbed": []}));
